@@ -2,6 +2,10 @@ import Gallia.Proofs.Lemmas.UdsResp
 import Gallia.Gen.C02Registry
 import Gallia.Proofs.Lemmas.UdsRespCtor
 import Gallia.Gen.C02Ctor
+import Gallia.Proofs.Lemmas.UdsRespFields
+import Gallia.Gen.C02Fields
+import Gallia.Proofs.Lemmas.UdsRespFromPdu
+import Gallia.Proofs.Lemmas.UdsRespExposes
 /-
   C02 — Decoded UDS responses expose the received fields and re-encode to the same bytes.
   Property theorems only; helper lemmas are in `Proofs/Lemmas/UdsResp.lean`.
@@ -535,9 +539,8 @@ theorem construct_wf (cls : String) (f : Fields) (r : Resp) (h : construct cls f
 
 /-- for every class and every field valuation the constructor accepts, the parser reads the constructed PDU back as
     exactly the constructed object (same constructor, same field values), and re-serialising gives the same bytes.
-    Full statement `construct_exposes` (`exposed r = some f` for calls in the form `_from_pdu` uses, `Fields.Canon f`)
-    is not proved in Lean; the tie compares the object's own attributes with the parsed-back ones on every
-    canonical call. -/
+    `construct_exposes` (below) adds `exposed r = some f` for calls in the form `_from_pdu` uses (`Fields.Canon f`); the
+    tie compares the object's own attributes with the parsed-back ones on every canonical call as well. -/
 theorem construct_pdu_parses_back (cls : String) (f : Fields) (r : Resp) (h : construct cls f = some r) :
     decodeResp (encodeResp r) = .ok r := decodeResp_encodeResp r (construct_wf cls f r h).1
 
@@ -584,5 +587,195 @@ example : construct "ReadDataByIdentifierResponse" (.rdbi [1, 2] [[0x61], [0x62]
 example : construct "ReportDTCByStatusMaskResponse" (.dtcListD 0xFF [(1, 2), (3, 4)]) = some (.dtcList 2 0xFF [(1, 2), (3, 4)]) := by
   decide
 example : construct "RequestDownloadResponse" (.upDownload 0x1234 (some 0x40)) = some (.upDownload 0x74 0x40 0x1234) := by decide
+
+/-! ### every attribute of every response class at its ISO position (one table, regenerated from the live classes) -/
+
+/-- (T) the table class → [(attribute leaf, how, offset, width)] probed from the live classes on marker PDUs on every run
+    equals the model's `layoutOf` for every registry class: a class or attribute that appears in the code and not in the
+    model (or the other way round, or at another position / width / rule) breaks this obligation -/
+theorem fieldTable_agrees : Gen.C02Fields.fieldTable = fieldRows := by decide +kernel
+
+/-- the table has a row list for every class of the registry -/
+theorem fieldsAt_total (b : Bytes) : ∀ e ∈ registry, (fieldsAt e.cls b).isSome = true := by
+  intro e he
+  have := find_cls e he
+  unfold fieldsAt
+  cases hf : registry.find? (fun x => x.cls == e.cls) with
+  | none => rw [hf] at this; cases this
+  | some e1 => rfl
+
+/-- **every field at its position**: for every class of the table and every byte string `decodeResp` accepts as that
+    class, the attribute leaves of the decoded object (all of them: `leaves`) are `fieldsAt` of the received bytes — the
+    ISO position slices named by the table. For ALL byte strings; the selected `decode_*` lemmas above are instances. -/
+theorem every_field_at_its_position (b : Bytes) (r : Resp) (e : Entry) (h : decodeResp b = .ok r)
+    (hd : dispatch b = .ok (some e)) : fieldsAt e.cls b = some (leaves r) := by
+  have hk := decodeResp_kind b r e h hd
+  obtain ⟨e1, hd1, hl, _, hp⟩ := decodeResp_typed h (by simp [hk])
+  rw [hd] at hd1
+  cases hd1
+  have hmem := (dispatch_spec hd).1
+  have hf := find_cls e hmem
+  unfold fieldsAt
+  cases hfe : registry.find? (fun x => x.cls == e.cls) with
+  | none => rw [hfe] at hf; cases hf
+  | some e2 =>
+    rw [hfe] at hf
+    simp only [Option.map_some, Option.some.injEq] at hf
+    simp only [Option.map_some, Option.some.injEq]
+    rw [leaves_eq_fieldsOf hl hp]
+    unfold fieldsOf
+    rw [hf]
+
+/-- the same, named by the class the decoder reports: whenever `decodeResp` returns a typed object, its leaves are the
+    table's slices for `className b` -/
+theorem every_field_at_its_position_by_name (b : Bytes) (r : Resp) (h : decodeResp b = .ok r) (hr : r.kind? ≠ none) :
+    fieldsAt (className b) b = some (leaves r) := by
+  obtain ⟨e, hd, hl, hs, _⟩ := decodeResp_typed h hr
+  have : className b = e.cls := by simp [className, gate, hd, checkEntry, hl, hs]
+  rw [this]
+  exact every_field_at_its_position b r e h hd
+
+/-- raw responses expose no typed field -/
+theorem raw_exposes_nothing (b p : Bytes) (h : decodeResp b = .ok (.rawPos p)) : leaves (.rawPos p) = [] ∧ p = b :=
+  ⟨rfl, (decodeResp_raw h).1⟩
+
+example : fieldsAt "WriteMemoryByAddressResponse" [0x7D, 0x12, 0xAA, 0xBB, 0xCC] =
+    some [("address_and_length_format_identifier", .int 0x12), ("memory_address", .int 0xAABB), ("memory_size", .int 0xCC)] := by
+  decide +kernel
+example : fieldsAt "ReportDTCByStatusMaskResponse" [0x59, 0x02, 0xFF, 0, 0, 1, 8, 0, 0, 2, 9] =
+    some [("dtc_and_status_record{}", .recs [(1, 8), (2, 9)]), ("dtc_status_availability_mask", .int 0xFF), ("sub_function", .int 2)] := by
+  decide +kernel
+example : fieldsAt "ClearDynamicallyDefinedDataIdentifierResponse" [0x6C, 0x03] =
+    some [("dynamically_defined_data_identifier", .none), ("sub_function", .int 3)] := by decide +kernel
+example : dispatch [0x7D, 0x12, 0xAA, 0xBB, 0xCC] = .ok (some registry[33]) := by rfl
+
+/-! ### the class-level entry points `<Response>.from_pdu` / `parse_static` against `parse_dynamic`
+
+  `fromPduE e` is `Cls.from_pdu` of the registry class `e` (its own `_check_pdu` and `_from_pdu`, no registry dispatch): what
+  the typed helpers of the client and the `parse_static` callers run. -/
+
+/-- whatever a class's own `from_pdu` accepts, the dynamic parser accepts as the same object (so: same class, same
+    fields, same re-serialisation) -/
+theorem from_pdu_accepted_by_dynamic (e : Entry) (b : Bytes) (r : Resp) (he : e ∈ registry)
+    (h : fromPduE e b = .ok r) : decodeResp b = .ok r ∧ dispatch b = .ok (some e) :=
+  ⟨fromPduE_decodeResp he h, dispatch_of_fromPduE he h⟩
+
+/-- ... and whatever the dynamic parser accepts as class `e`, `e.from_pdu` accepts as the same object -/
+theorem dynamic_accepted_by_from_pdu (e : Entry) (b : Bytes) (r : Resp) (h : decodeResp b = .ok r)
+    (hd : dispatch b = .ok (some e)) : fromPduE e b = .ok r := decodeResp_fromPduE h hd
+
+/-- **`from_pdu` and `parse_dynamic` agree wherever both accept** (any registry class, any byte string) -/
+theorem from_pdu_agrees_with_dynamic (e : Entry) (b : Bytes) (r₁ r₂ : Resp) (he : e ∈ registry)
+    (h₁ : fromPduE e b = .ok r₁) (h₂ : decodeResp b = .ok r₂) : r₁ = r₂ := by
+  have := fromPduE_decodeResp he h₁
+  rw [this] at h₂
+  cases h₂; rfl
+
+/-- **`from_pdu` of a class the PDU does not belong to rejects**: the registry dispatches `b` to `e₂`, `e` is another
+    registry class -/
+theorem from_pdu_wrong_class_rejects (e e₂ : Entry) (b : Bytes) (he : e ∈ registry)
+    (hd : dispatch b = .ok (some e₂)) (hne : e₂ ≠ e) : ∃ x, fromPduE e b = .error x := by
+  cases h : fromPduE e b with
+  | error x => exact ⟨x, rfl⟩
+  | ok r =>
+    have := dispatch_of_fromPduE he h
+    rw [hd] at this
+    cases this
+    exact absurd rfl hne
+
+/-- a PDU of an unknown service / unknown sub-function (kept raw by the dynamic parser) is rejected by every class -/
+theorem from_pdu_raw_rejects (e : Entry) (b : Bytes) (he : e ∈ registry) (hg : gate b = .ok .raw) :
+    ∃ x, fromPduE e b = .error x := by
+  cases h : fromPduE e b with
+  | error x => exact ⟨x, rfl⟩
+  | ok r =>
+    have hd := dispatch_of_fromPduE he h
+    obtain ⟨hl, hs, _, _⟩ := fromPduE_ok h
+    simp [gate, hd, checkEntry, hl, hs] at hg
+
+/-- `NegativeResponse.from_pdu` IS the negative branch of the dynamic parser: same verdict (accepted object or the
+    reason of the rejection) on every byte string starting with 7F -/
+theorem neg_from_pdu_is_dynamic (t : Bytes) : fromPduE negEntry (0x7F :: t) = decodeResp (0x7F :: t) :=
+  fromPduE_neg t
+
+/-- `Cls.parse_static` of any class on a byte string starting with 7F is the negative branch of the dynamic parser -/
+theorem parse_static_neg_is_dynamic (e : Entry) (t : Bytes) : parseStaticE e (0x7F :: t) = decodeResp (0x7F :: t) := by
+  simp only [parseStaticE, if_true]
+  exact fromPduE_neg t
+
+/-- `Cls.parse_static` accepts only what the dynamic parser accepts, as the same object -/
+theorem parse_static_agrees_with_dynamic (e : Entry) (b : Bytes) (r : Resp) (he : e ∈ registry)
+    (h : parseStaticE e b = .ok r) : decodeResp b = .ok r := by
+  unfold parseStaticE at h
+  split at h
+  · cases h
+  · split at h
+    · exact fromPduE_decodeResp negEntry_mem h
+    · exact fromPduE_decodeResp he h
+
+/-- the fields of an object obtained through `Cls.from_pdu` are at their positions as well -/
+theorem from_pdu_fields_at_position (e : Entry) (b : Bytes) (r : Resp) (he : e ∈ registry)
+    (h : fromPduE e b = .ok r) : fieldsAt e.cls b = some (leaves r) :=
+  every_field_at_its_position b r e (fromPduE_decodeResp he h) (dispatch_of_fromPduE he h)
+
+example : fromPduE registry[26] [0x71, 0x01, 0x12, 0x34, 0xAA] = .ok (.routine 1 0x1234 [0xAA]) := by
+  simp [fromPduE, registry, lenGate, subGate, parseKind, pRoutine, fromBE]
+example : dispatch [0x71, 0x01, 0x12, 0x34, 0xAA] = .ok (some registry[26]) := by rfl
+example : fromPduE registry[27] [0x71, 0x01, 0x12, 0x34, 0xAA] = .error .subFunction := by
+  simp [fromPduE, registry, lenGate, subGate]
+example : parseStaticE registry[26] [0x7F, 0x31, 0x11] = .ok (.neg 0x31 0x11) := by
+  simp [parseStaticE, fromPduE, negEntry, lenGate, subGate, parseKind, pNeg, nrcTable]
+
+/-! ### the constructor side, completed: the object built from fields `f` exposes exactly `f` -/
+
+/-- **construct_exposes**: for every class and every canonical constructor call (the form `_from_pdu` itself uses: one
+    identifier / one record, explicit format bytes, tuple + one-entry mapping) that the constructor accepts, the constructed
+    object exposes exactly the field values it was built from - all 21 constructor forms. With `construct_pdu_parses_back`:
+    build → serialise → parse → read the attributes gives back the arguments. -/
+theorem construct_exposes (cls : String) (f : Fields) (r : Resp) (h : construct cls f = some r) (hc : f.Canon) :
+    exposed r = some f := by
+  obtain ⟨e, _, _, hE⟩ := construct_entry h
+  exact constructE_exposes hE hc
+
+/-- the InputOutputControlByIdentifier convenience classes expose the identifier and their control parameter followed by
+    the control states -/
+theorem construct_conv_exposes (cls : String) (p : Nat) (did : Int) (states : Bytes) (r : Resp)
+    (hp : convClasses.find? (fun q => q.1 == cls) = some (cls, p)) (h : constructConv cls did states = some r) :
+    exposed r = some (.iocbi did (UInt8.ofNat p :: states)) := by
+  unfold constructConv at h
+  rw [hp] at h
+  exact construct_exposes _ _ r h trivial
+
+/-- canonical calls are determined by the bytes they put on the wire: two accepted canonical calls (any classes) with the
+    same PDU have the same field values -/
+theorem construct_canon_injective (c₁ c₂ : String) (f₁ f₂ : Fields) (r₁ r₂ : Resp)
+    (h₁ : construct c₁ f₁ = some r₁) (h₂ : construct c₂ f₂ = some r₂) (k₁ : f₁.Canon) (k₂ : f₂.Canon)
+    (hb : encodeResp r₁ = encodeResp r₂) : f₁ = f₂ := by
+  have e₁ := construct_pdu_parses_back c₁ f₁ r₁ h₁
+  have e₂ := construct_pdu_parses_back c₂ f₂ r₂ h₂
+  rw [hb] at e₁
+  rw [e₁] at e₂
+  cases e₂
+  have x₁ := construct_exposes c₁ f₁ r₁ h₁ k₁
+  have x₂ := construct_exposes c₂ f₂ r₁ h₂ k₂
+  rw [x₁] at x₂
+  cases x₂; rfl
+
+example : construct "WriteMemoryByAddressResponse" (.wmba 0x1234 1 (some 0x12)) = some (.wmba 0x12 0x1234 1) ∧
+    exposed (.wmba 0x12 0x1234 1) = some (.wmba 0x1234 1 (some 0x12)) ∧ (Fields.wmba 0x1234 1 (some 0x12)).Canon := by
+  refine ⟨by decide, rfl, by simp [Fields.Canon]⟩
+
+/-! ### the record rule of the field table, spelled out -/
+
+/-- `recs off w` (the DTC-and-status mapping of the ReadDTCInformation list sub-functions, `w = 3`): the number of entries
+    is the number of whole (w+1)-byte records, and entry `i` is (big-endian bytes (w+1)·i .. (w+1)·i+w-1, byte (w+1)·i+w)
+    of the bytes after the header - every record, for any length -/
+theorem recs_rule_positions (w : Nat) (b : Bytes) :
+    (recsAt w b).length = b.length / (w + 1) ∧
+    ∀ i (hi : i < (recsAt w b).length),
+      (recsAt w b)[i] = (fromBE (slice b ((w + 1) * i) w), (b.getD ((w + 1) * i + w) 0).toNat) :=
+  ⟨recsFuel_length w _ b (Nat.le_refl _), fun i hi => recsFuel_getElem w _ b i (Nat.le_refl _) hi⟩
+
+example : recsAt 3 [0, 0, 1, 8, 0, 0, 2, 9] = [(1, 8), (2, 9)] := by decide +kernel
 
 end Gallia.C02
